@@ -156,7 +156,7 @@ CHECKS = {
              'pairs; real DirectSimulation run(k1); run(k2) with symbolic run lengths: list lengths == n_runs == k1+k2, '
              'estimator and standard error formulas, every generate() gets the simulation\'s own rng. Realised with the real '
              'classes and engines: a simulation\'s results (same seed) are bit-for-bit those of a fresh process whatever '
-             'simulation ran before it in the process (solver-chosen ordered pairs, shared code objects).',
+             'simulation ran before it in the process (solver-chosen ordered pairs, shared code and noise objects, an optional read-only error_probability query in between).',
         note='The statistical claim (unbiased estimate of the exact failure probability) is not decided.',
         technique='symbolic execution of real Python (symx) + z3', ref='3/C11'),
     'C12': dict(
